@@ -747,6 +747,52 @@ def _judge_seed(args):
     return name, prop, "missed", "check exited 0 on a seeded change it used to report"
 
 
+def _judge_preserving(args):
+    """A behaviour-preserving change of the corpus (preserving/<name>/patch.diff) must not be reported as a violation."""
+    name, prop, src_root, patch_path = args
+    import subprocess
+
+    from sa.check import run_property
+
+    root = make_root(src_root, [])
+    if root is None:
+        return name, prop, "inapplicable", "no scratch copy"
+    try:
+        r = subprocess.run(["patch", "-p1", "-s", "-d", root, "-i", patch_path], capture_output=True, text=True)
+        if r.returncode != 0:
+            return name, prop, "inapplicable", "patch does not apply to the current tree"
+        buf = io.StringIO()
+        with contextlib.redirect_stdout(buf), contextlib.redirect_stderr(buf):
+            rc = run_property(prop, root, "quick", 0, write=False)
+        out = buf.getvalue()
+    finally:
+        shutil.rmtree(root, ignore_errors=True)
+    if rc == 1:
+        viol = [l for l in out.splitlines() if l.startswith("VIOLATED:")]
+        return name, prop, "false-alarm", (viol[0][:200] if viol else "")
+    return name, prop, ("silent" if rc == 0 else "undecided"), ""
+
+
+def preserving_for(prop: str):
+    import json
+
+    base = os.path.join(os.path.dirname(HERE), "preserving")
+    out = []
+    if not os.path.isdir(base):
+        return out
+    for name in sorted(os.listdir(base)):
+        mp = os.path.join(base, name, "meta.json")
+        pp = os.path.join(base, name, "patch.diff")
+        if os.path.exists(mp) and os.path.exists(pp):
+            try:
+                meta = json.load(open(mp))
+            except Exception:
+                continue
+            if prop not in meta.get("checks_reporting_a_violation", []):
+                out.append((name, pp))
+    return out
+
+
 def seeded_for(prop: str):
     import json
 
@@ -784,10 +830,12 @@ def run(prop: str, seed: int, root: str, coverage_out: dict, jobs: int = 16, onl
         tasks.append((v.vid, v.kind, prop, v.rules, root, [(f, v.old, v.new, v.count, special) for f in files] + [(f2, o2, n2, 1, None) for f2, o2, n2 in v.extra], v.accept_undecided))
     results = []
     seed_tasks = [(f"seed:{name}", prop, root, pp) for name, pp in seeded_for(prop)] if only is None else []
-    if tasks or seed_tasks:
-        with cf.ProcessPoolExecutor(max_workers=min(jobs, len(tasks) + len(seed_tasks))) as ex:
+    pres_tasks = [(f"preserving:{name}", prop, root, pp) for name, pp in preserving_for(prop)] if only is None else []
+    if tasks or seed_tasks or pres_tasks:
+        with cf.ProcessPoolExecutor(max_workers=min(jobs, len(tasks) + len(seed_tasks) + len(pres_tasks))) as ex:
             results = list(ex.map(_judge, tasks))
             results += list(ex.map(_judge_seed, seed_tasks))
+            results += list(ex.map(_judge_preserving, pres_tasks))
     bad = []
     tally = {}
     for vid, p, verdict, detail in results:
